@@ -15,6 +15,8 @@ import Univers.Props.C04
 import Univers.Props.C07
 import Univers.Props.C08
 import Univers.Props.C09
+import Univers.Vers.GenRangeNormalizeThm
+import Univers.Props.C10
 
 namespace Univers.Gen.LayerB
 open Univers Univers.PyRt Std
@@ -64,5 +66,20 @@ theorem py_invert_complement [TransCmp cmp] (h : Lawful o cmp) (cs : List (Con V
   refine ⟨inv, ?_, h2, ?_⟩
   · rw [range_invert_eq, h1]
   · intro x; rw [contains_version_eq]; exact h4 x
+
+/-- **C10, source to specification**: `VersionRange.normalize` as translated returns a range that the translated validation
+accepts, and a known version is in it (for `contains_version` as translated) exactly when it is in the original. -/
+theorem py_normalize_accepted_and_members [TransCmp cmp] (h : Lawful o cmp) (cs : List (Con V)) (hwf : WFSorted cmp cs)
+    (ks : List V) :
+    ∃ r, range_normalize o perm cs ks = .ok r ∧ WFSorted cmp r ∧ con_validate o perm r = .ok true ∧
+      ∀ k ∈ ks, contains_version o perm k r = .ok (denote cmp cs k) := by
+  obtain ⟨r, h1, h2, h3⟩ := C10.normalize_accepted h cs hwf ks
+  obtain ⟨r', h1', h4⟩ := C10.normalize_members h cs hwf ks
+  have : r' = r := by rw [h1] at h1'; cases h1'; rfl
+  subst this
+  refine ⟨r', by rw [range_normalize_eq]; exact h1, h2, by rw [con_validate_eq]; exact h3, ?_⟩
+  intro k hk
+  rw [contains_version_eq]
+  exact (h4 k hk).1
 
 end Univers.Gen.LayerB
